@@ -3,15 +3,21 @@
 (plus extra checks given in EXTRA), restores /repo, and records the outcome in seeded/<id>/meta.json."""
 import json, os, re, subprocess, sys, glob
 V = "/verif"
-EXTRA = {"C10b": ["C09"], "C04b": ["C05"], "C05a": ["C04"], "C13b": ["C01"], "C08a": ["C02"]}
+R = os.environ.get("SEED_REPO", "/repo")  # a scratch worktree may stand in for /repo (then outputs go to SEED_OUT)
+ENV = dict(os.environ)
+if R != "/repo":
+    ENV["VERIF_REPO"] = R
+    ENV["VERIF_OUT"] = os.environ.get("SEED_OUT", "/tmp/seedout")
+    os.makedirs(ENV["VERIF_OUT"], exist_ok=True)
+EXTRA = {"C10b": ["C09"], "C04b": ["C05"], "C05a": ["C04"], "C13b": ["C01"], "C08a": ["C02"], "C13d": ["C08"], "C13c": ["C08"], "C01d": ["C14"]}
 ids = sys.argv[1:] or sorted(os.path.basename(os.path.dirname(p)) for p in glob.glob(V + "/seeded/*/meta.json"))
 def sh(*a, **k): return subprocess.run(*a, **k)
 for sid in ids:
     d = os.path.join(V, "seeded", sid)
     meta = json.load(open(os.path.join(d, "meta.json")))
-    if sh(["git", "-C", "/repo", "status", "--porcelain"], capture_output=True, text=True).stdout.strip():
+    if sh(["git", "-C", R, "status", "--porcelain"], capture_output=True, text=True).stdout.strip():
         sys.exit("repo dirty")
-    r = sh(["git", "-C", "/repo", "apply", os.path.join(d, "patch.diff")], capture_output=True, text=True)
+    r = sh(["git", "-C", R, "apply", os.path.join(d, "patch.diff")], capture_output=True, text=True)
     if r.returncode != 0:
         meta["detected_by"] = None
         meta["matrix"] = {"error": "patch does not apply to the current tree: " + r.stderr.strip()[:200]}
@@ -20,7 +26,7 @@ for sid in ids:
     res = {}
     try:
         for prop in [meta["property"]] + EXTRA.get(sid, []):
-            r = sh([os.path.join(V, "check"), prop, "--tier", "quick"], capture_output=True, text=True, cwd=V)
+            r = sh([os.path.join(V, "check"), prop, "--tier", "quick"], capture_output=True, text=True, cwd=V, env=ENV)
             viol = [l for l in r.stdout.splitlines() if l.startswith("VIOLATION")]
             det = [l.strip() for l in r.stdout.splitlines() if l.startswith("  harness=")]
             inc = [l for l in r.stdout.splitlines() if l.startswith("INCONCLUSIVE")]
@@ -30,11 +36,11 @@ for sid in ids:
                 first = "%s %s" % (m.group(1), m.group(2)) if m else det[0][:80]
             res[prop] = {"exit": r.returncode, "violations": len(viol), "inconclusive": len(inc), "first": first}
     finally:
-        sh(["git", "-C", "/repo", "checkout", "--", "."])
-        sh(["git", "-C", "/repo", "clean", "-fdq"])
+        sh(["git", "-C", R, "checkout", "--", "."])
+        sh(["git", "-C", R, "clean", "-fdq"])
     caught = [p for p, x in res.items() if x["violations"] > 0]
     meta["detected_by"] = caught or None
     meta["matrix"] = res
     json.dump(meta, open(os.path.join(d, "meta.json"), "w"), indent=1)
     print(sid, json.dumps(res))
-    sh(["rm", "-rf"] + [os.path.join(V, "replays", p) for p in res])
+    sh(["rm", "-rf"] + [os.path.join(ENV.get("VERIF_OUT", V), "replays", p) for p in res])
